@@ -217,21 +217,30 @@ impl<'a> ChannelList<'a> {
 
     fn read_channel_spec(&mut self) -> Result<(&'a [u8], usize), ErrorCode> {
         let mut dim = 1usize;
+        // Current dimension has at least one digit
+        let mut digits = false;
+        // At the start of a dimension, the only place where a sign may stand
+        let mut start = true;
         // Read full spec
         let s = self.chars.as_slice();
-        while self.chars.clone().next().map_or(false, |ch| {
-            ch.is_ascii_digit() || *ch == b'-' || *ch == b'+' || *ch == b'!'
-        }) {
-            if let Some(x) = self.chars.next() {
-                if *x == b'!' {
+        while let Some(ch) = self.chars.clone().next() {
+            match ch {
+                b'0'..=b'9' => digits = true,
+                b'-' | b'+' if start => {}
+                b'!' if digits => {
                     dim += 1;
+                    digits = false;
                 }
+                _ => break,
             }
+            start = *ch == b'!';
+            self.chars.next();
         }
 
         let s = &s[0..s.len() - self.chars.as_slice().len()];
 
-        if s.is_empty() {
+        // Every dimension needs a number
+        if !digits {
             Err(ErrorCode::InvalidExpression)
         } else {
             Ok((s, dim))
